@@ -5,6 +5,7 @@ import (
 
 	"github.com/jsightapi/jsight-schema-core/errs"
 	"github.com/jsightapi/jsight-schema-core/notations/jschema/ischema"
+	"github.com/jsightapi/jsight-schema-core/notations/jschema/ischema/constraint"
 )
 
 // CheckRecursion checks that given schema doesn't have invalid recursions.
@@ -122,7 +123,19 @@ func (c *recursionChecker) check(node ischema.Node, types map[string]ischema.Typ
 
 	// We should check all fields in the object 'cause some of them can be required.
 	case *ischema.ObjectNode:
-		for _, n := range node.Children() {
+		// A property is mandatory when the compiled object requires its key: that
+		// covers the `optional` rule as well as schemas whose keys are optional by
+		// default (where a property without any rule is no mandatory link).
+		required := map[string]struct{}{}
+		if rk, ok := node.Constraint(constraint.RequiredKeysConstraintType).(*constraint.RequiredKeys); ok && rk != nil {
+			for _, k := range rk.Keys() {
+				required[k] = struct{}{}
+			}
+		}
+		for i, n := range node.Children() {
+			if _, ok := required[node.Key(i).Key]; !ok {
+				continue
+			}
 			if err := c.check(n, types); err != nil {
 				return err
 			}
